@@ -166,7 +166,40 @@ def apply_damage(folder, damage):
 
 
 def ground_truth(lib, folder, model):
-    """Return a description of why the damage is effective, or None."""
+    """Return a description of why the damage is effective, or None: some object is unreadable, reads back as different
+    bytes or disagrees with its recorded size - for a client that reads it through, or for one that seeks in it (the
+    library serves seeking readers of a compressed packed object from a loose copy, if there is one)."""
+    why = _ground_truth_linear(lib, folder, model)
+    if why is not None:
+        return why
+    # the seeking reader re-creates loose copies: it works on a copy of the damaged folder, validate() sees the original
+    scratch = folder.rstrip('/') + '.seek'
+    if os.path.exists(scratch):
+        shutil.rmtree(scratch)
+    shutil.copytree(folder, scratch)
+    try:
+        cont = lib.Container(scratch)
+        try:
+            for key in sorted(model):
+                data = model[key]
+                try:
+                    with cont.get_object_stream(key) as stream:
+                        head = stream.read(2)
+                        stream.seek(0, 2)  # (the value it returns is not part of the ground truth: only bytes read back are)
+                        stream.seek(0)
+                        got = stream.read()
+                except Exception as exc:  # pylint: disable=broad-except
+                    return f'key={key[:12]} unreadable for a seeking reader ({type(exc).__name__})'
+                if head != data[:2] or got != data:
+                    return f'key={key[:12]} reads different bytes for a seeking reader ({len(got)} bytes after seek(0,2); seek(0), stored {len(data)})'
+        finally:
+            cont.close()
+    finally:
+        shutil.rmtree(scratch, ignore_errors=True)
+    return None
+
+
+def _ground_truth_linear(lib, folder, model):
     cont = lib.Container(folder)
     try:
         for key in sorted(model):
